@@ -625,12 +625,24 @@ func ruleLogFlowPure(p *Prog, r *Report, fs []*ssa.Function, lp map[*ssa.Functio
 		if !ok || depth > 8 {
 			return
 		}
-		for _, g := range p.Callees(ci) {
+		mark := func(g *ssa.Function) {
 			if !isLibFn(g) || g.Blocks == nil || calledInLog[g] || levelOnly[g] || lp[g] {
-				continue
+				return
 			}
 			calledInLog[g] = true
 			eachInstr(g, func(_ *ssa.BasicBlock, _ int, in2 ssa.Instruction) { walkCalls(in2, depth+1) })
+		}
+		for _, g := range p.Callees(ci) {
+			mark(g)
+		}
+		// values boxed for the logger (Stringer("type", t.Type), Object("box", b), Msgf("%s", v)): zerolog / fmt call
+		// their String / MarshalZerolog* methods only when the event is enabled
+		if sc := ci.Common().StaticCallee(); sc != nil && sc.Pkg != nil && (strings.HasPrefix(sc.Pkg.Pkg.Path(), zerologPath) || sc.Pkg.Pkg.Path() == "fmt") {
+			for _, a := range ci.Common().Args {
+				for _, m := range boxedStringers(p, a, 0) {
+					mark(m)
+				}
+			}
 		}
 	}
 	for _, rg := range regions {
